@@ -550,6 +550,15 @@ func (fc *funcContext) RegisterLocalVar(name string) int {
 	return ret
 }
 
+// StartLocalVarsHere makes the scope of the last n registered variables begin at the
+// next instruction (the hidden loop variables are registered before the loop header
+// expressions are compiled but come into scope only after them).
+func (fc *funcContext) StartLocalVarsHere(n int) {
+	for i := len(fc.Proto.DbgLocals) - n; i < len(fc.Proto.DbgLocals); i++ {
+		fc.Proto.DbgLocals[i].StartPc = fc.Code.LastPC() + 1
+	}
+}
+
 func (fc *funcContext) FindLocalVarAndBlock(name string) (int, *codeBlock) {
 	for block := fc.Block; block != nil; block = block.Parent {
 		if index := block.LocalVars.Find(name); index > -1 {
@@ -1074,6 +1083,7 @@ func compileNumberForStmt(context *funcContext, stmt *ast.NumberForStmt) { // {{
 	ecupdate(ec, ecLocal, rstep, 0)
 	compileExpr(context, reg, stmt.Step, ec)
 
+	context.StartLocalVarsHere(3)
 	code.AddASbx(OP_FORPREP, rindex, 0, sline(stmt))
 
 	context.RegisterLocalVar(stmt.Name)
@@ -1105,6 +1115,7 @@ func compileGenericForStmt(context *funcContext, stmt *ast.GenericForStmt) { // 
 
 	compileRegAssignment(context, stmt.Names, stmt.Exprs, context.RegTop()-3, 3, sline(stmt))
 
+	context.StartLocalVarsHere(3)
 	code.AddASbx(OP_JMP, 0, fllabel, sline(stmt))
 
 	for _, name := range stmt.Names {
